@@ -237,6 +237,14 @@ func runC19(args []string) int {
 			// (c') YAML in YAML: the wrapped document as the value of a scalar of an outer document
 			w := gw.wrapOpts(list, levels, false)
 			e := gw.embed(w.Text)
+			if e.Literal && e.Descends && r.Intn(3) == 0 {
+				// YAML in YAML in YAML: the outer document is itself the value of a scalar of a further document; the
+				// reference is again the scalar's value parsed on its own, so offsets must ACCUMULATE over the levels
+				e2 := gw.embed(e.Text)
+				e2.Desc = "nested:" + e.Desc + "-inside-" + e2.Desc
+				w.Text, w.Desc = e.Text, w.Desc+"+"+e.Desc
+				e = e2
+			}
 			// reference: the scalar's value parsed as a document of its own (wrapper vs bare list is the other branch)
 			ref := w.Text
 			if e.Literal {
